@@ -279,13 +279,17 @@ def execute(plan: dict[str, Any]) -> dict[str, Any]:
             if dim != "canonical":
                 nontrivial.append(rng.digest([v["text"], v["bom"], op]))
             if op.get("eio") and fs.path(f"v{vi}.chart") in fs.eio_raised:
+                # relaxed oracle under an injected read error: the parse may fail (with that
+                # OSError or any other exception), it must never return WRONG data.  A chart that
+                # is returned nevertheless goes through the ordinary invariance comparison below.
                 ok = isinstance(err, OSError) and err.errno == errno.EIO
                 ev.update(f"{vi}:eio:{ok};".encode())
-                if not ok:
-                    got = "returned a chart" if err is None else f"raised {exc_token(err)}"
-                    violations.append({"sig": f"C06/eio-returned/{dim}/{type(err).__name__ if err else '-'}",
-                                       "detail": f"variant {vi}: EIO while reading but the parse {got}"})
-                continue
+                if err is not None:
+                    if not ok:
+                        probes["eio_converted_to_other_exception"] = probes.get(
+                            "eio_converted_to_other_exception", 0) + 1
+                    continue
+                probes["eio_swallowed_chart_returned"] = probes.get("eio_swallowed_chart_returned", 0) + 1
             if err is not None:
                 ev.update(f"{vi}:exc:{type(err).__name__};".encode())
                 violations.append({"sig": f"C06/invariance/{dim}/{type(err).__name__}",
